@@ -168,7 +168,10 @@ func (c *Ctx) heldInterproc(in ssa.Instruction, ref lockRef, depth int) (bool, s
 	if depth <= 0 {
 		return false, "lock " + c.lockString(ref) + " not held in " + c.fnName(fn) + " (caller depth bound reached: undecided)"
 	}
-	// If the function itself locks this ref somewhere before `in` on some path but not all, fail here.
+	// assume the lock is held on entry: it must still be held at `in` (the function may release it first)
+	if _, ok := c.lockFlow(fn, lockset{ref.key(): ref}, true).at(in)[ref.key()]; !ok {
+		return false, "lock " + c.lockString(ref) + " is released in " + c.fnName(fn) + " before this point"
+	}
 	sites := c.sitesOf(fn)
 	if len(sites) == 0 {
 		return false, "lock " + c.lockString(ref) + " not held in " + c.fnName(fn) + " and no static caller found"
